@@ -4,6 +4,7 @@ H8: operation sequences over the lifecycle alphabet against children with
 chosen dispositions; invariants evaluated from /proc after every operation
 (single-threaded, at quiescent points)."""
 import gc
+import zlib
 import itertools
 import os
 import signal
@@ -458,7 +459,7 @@ def plan(tier, seed):
     for tr in ('fd', 'socket'):
         for d in range(1, 4 if tier == 'quick' else 5):
             for s in itertools.product(FD_OPS, repeat=d):
-                if d >= 3 and (hash(s) + seed) % (3 if tier == 'quick' else 1) and tier == 'quick':
+                if d >= 3 and (zlib.crc32(repr(s).encode()) + seed) % (3 if tier == 'quick' else 1) and tier == 'quick':
                     continue
                 cases.append({'kind': 'fd', 'tr': tr, 'seq': list(s), 'enum': True})
     rng.shuffle(cases)
